@@ -12,7 +12,7 @@ for d in $dirs; do
   d=${d%/}; name=$(basename $d); prop=$(python3 -c "import json;print(json.load(open('$d/meta.json'))['property'])")
   checks=$(python3 -c "import json;m=json.load(open('$d/meta.json'));print(' '.join(m.get('checks_to_run',[m['property']])))")
   git -C /repo diff --quiet || { echo "refusing: /repo dirty"; exit 2; }
-  git -C /repo apply $d/patch.diff || { echo "$name: patch does not apply"; continue; }
+  git -C /repo apply /verif/$d/patch.diff || { echo "$name: patch does not apply"; continue; }
   res="missed"; detail=""
   for c in $checks; do
     s=$(date +%s); ./check $c --tier quick > /tmp/matrix.out 2>&1; rc=$?; e=$(date +%s)
